@@ -274,9 +274,38 @@ func (e *Exec) modelInputs() map[string]ModelInput {
 func (e *Exec) symInputs() []*Term { return e.Inputs }
 
 // evalNotes evaluates recorded notes under the current model
+func containsUF(t *Term, memo map[*Term]bool) bool {
+	if v, ok := memo[t]; ok {
+		return v
+	}
+	r := t.Op == "uf"
+	for _, a := range t.Args {
+		if r {
+			break
+		}
+		r = containsUF(a, memo)
+	}
+	memo[t] = r
+	return r
+}
+
 func (e *Exec) evalNotes() map[string]string {
 	out := map[string]string{}
+	memo := map[*Term]bool{}
 	for _, n := range e.notes {
+		// values that depend on an uninterpreted function (hashes) cannot be predicted
+		skip := false
+		switch v := n.val.(type) {
+		case *Term:
+			skip = containsUF(v, memo)
+		case []*Term:
+			for _, b := range v {
+				skip = skip || containsUF(b, memo)
+			}
+		}
+		if skip {
+			continue
+		}
 		switch v := n.val.(type) {
 		case *Term:
 			if v.IsConst() {
